@@ -36,7 +36,7 @@ def file_hash(*paths, extra=''):
     return h.hexdigest()[:16]
 
 
-def _prune(prefix, keep, keep_n=4):
+def _prune(prefix, keep, keep_n=40):
     """remove stale cached products with the same prefix, keeping the few most recent (other trees may be in use concurrently)"""
     files = [f for f in glob.glob(os.path.join(BUILD, prefix + '*')) if keep not in f and not f.endswith('.lock')]
     files.sort(key=lambda f: os.path.getmtime(f) if os.path.exists(f) else 0, reverse=True)
@@ -51,6 +51,12 @@ class _Lock:
     def __init__(self, name):
         os.makedirs(BUILD, exist_ok=True)
         self.path = os.path.join(BUILD, name + '.lock')
+        for f in glob.glob(os.path.join(BUILD, '*.lock')):      # stale lock files of other trees
+            try:
+                if time.time() - os.path.getmtime(f) > 6 * 3600:
+                    os.remove(f)
+            except OSError:
+                pass
 
     def __enter__(self):
         import fcntl
@@ -64,7 +70,8 @@ class _Lock:
 
 
 def ir_for(harness, lib_sources=(), extra_c=(), defines=(), tag=None):
-    with _Lock('ir.' + harness + (tag or '')):
+    # one lock per (harness, tree) so that checks of different trees build concurrently
+    with _Lock('ir.' + harness + (tag or '') + '.' + repo_hash()):
         return _ir_for(harness, lib_sources, extra_c, defines, tag)
 
 
@@ -115,7 +122,7 @@ def _ir_for(harness, lib_sources=(), extra_c=(), defines=(), tag=None):
 
 
 def native_lib_objects():
-    with _Lock('native-lib'):
+    with _Lock('native-lib.' + repo_hash()):
         return _native_lib_objects()
 
 
@@ -150,7 +157,7 @@ def _native_lib_objects():
 
 
 def native_so(harness, defines=(), with_lib=True, sanitize=False, exclude=()):
-    with _Lock('so.' + harness):
+    with _Lock('so.' + harness + '.' + repo_hash()):
         return _native_so(harness, defines, with_lib, sanitize, exclude)
 
 
